@@ -492,6 +492,95 @@ pub fn sig_file_name(sig: &str) -> String {
   hex
 }
 
+#[derive(Default, Serialize, Deserialize)]
+pub struct PreReport {
+  pub corpus_replayed: u64,
+  pub corpus: Vec<(serde_json::Value, Vec<Violation>)>,
+  pub harness_errors: Vec<String>,
+  pub extra: Option<ExtraReport>,
+}
+
+static CUR_ITEM_PATH: std::sync::OnceLock<PathBuf> = std::sync::OnceLock::new();
+static CUR_ITEM_SINCE: std::sync::Mutex<Option<Instant>> = std::sync::Mutex::new(None);
+
+/// Corpus / extra layers name the item they are about to analyse, so that a
+/// crash or hang of the code under test can be attributed (and timed).
+pub fn set_current_item(item: &serde_json::Value) {
+  if let Some(p) = CUR_ITEM_PATH.get() {
+    let _ = std::fs::write(p, serde_json::to_string(item).unwrap());
+    *CUR_ITEM_SINCE.lock().unwrap() = Some(Instant::now());
+  }
+}
+
+pub fn clear_current_item() {
+  if let Some(p) = CUR_ITEM_PATH.get() {
+    let _ = std::fs::remove_file(p);
+    *CUR_ITEM_SINCE.lock().unwrap() = None;
+  }
+}
+
+/// Only this corpus file is analysed by corpus layers (replay of a
+/// corpus-layer finding).
+pub fn only_corpus_file() -> Option<String> {
+  std::env::var("VP_ONLY_CORPUS_FILE").ok()
+}
+
+/// Child process of `check_main`: corpus replay and the extra layer.
+pub fn pre_main<C>(spec: &PropSpec<C>, tier: Tier, seed: u64, out: &Path, cur: &Path) -> i32
+where
+  C: Serialize + DeserializeOwned + Clone + std::fmt::Debug + 'static,
+{
+  install_panic_hook();
+  let _ = std::fs::remove_file(cur);
+  let _ = CUR_ITEM_PATH.set(cur.to_path_buf());
+  let limit = std::env::var("VP_CASE_TIMEOUT_S")
+    .ok()
+    .and_then(|s| s.parse().ok())
+    .unwrap_or(120u64);
+  std::thread::spawn(move || loop {
+    std::thread::sleep(Duration::from_millis(500));
+    let since = *CUR_ITEM_SINCE.lock().unwrap();
+    if let Some(t) = since {
+      if t.elapsed() > Duration::from_secs(limit) {
+        std::process::exit(3);
+      }
+    }
+  });
+  let vd = verif_dir();
+  let mut rep = PreReport::default();
+  let corpus_dir = vd.join("corpus").join(spec.id);
+  if let Ok(rd) = std::fs::read_dir(&corpus_dir) {
+    let mut files: Vec<_> = rd.filter_map(|e| e.ok()).map(|e| e.path()).collect();
+    files.sort();
+    for f in files {
+      if f.extension().and_then(|s| s.to_str()) != Some("json") {
+        continue;
+      }
+      let text = std::fs::read_to_string(&f).unwrap();
+      let json: serde_json::Value = match serde_json::from_str(&text) {
+        Ok(j) => j,
+        Err(e) => {
+          rep.harness_errors.push(format!("corpus file {f:?} unreadable: {e}"));
+          continue;
+        }
+      };
+      rep.corpus_replayed += 1;
+      set_current_item(&json);
+      match replay_case(spec, tier, &json) {
+        Ok(vs) => rep.corpus.push((json.clone(), vs)),
+        Err(e) => rep.harness_errors.push(format!("corpus file {f:?}: {e}")),
+      }
+      clear_current_item();
+    }
+  }
+  if let Some(extra) = spec.extra {
+    rep.extra = Some(extra(tier, seed));
+    clear_current_item();
+  }
+  std::fs::write(out, serde_json::to_string(&rep).unwrap()).expect("write pre report");
+  0
+}
+
 /// Parent process: replays corpus, spawns workers, merges, writes evidence.
 pub fn check_main<C>(spec: &PropSpec<C>, tier: Tier) -> i32
 where
@@ -512,27 +601,36 @@ where
   let mut known_hits: BTreeMap<String, u64> = BTreeMap::new();
   let mut harness_errors: Vec<String> = Vec::new();
 
-  // 1. corpus replay (plain regression checks that bypass proptest)
-  let corpus_dir = vd.join("corpus").join(spec.id);
+  // 1 + 2. corpus replay and the deterministic extra layer run in a child
+  // process, so that a stack overflow or a hang of the code under test is
+  // attributed to an item instead of killing this process
+  let mut merged = WorkerReport::default();
+  let mut nontrivial: BTreeSet<u64> = BTreeSet::new();
+  let mut exhaustive: Option<bool> = None;
+  let mut notes: Vec<String> = Vec::new();
   let mut corpus_replayed = 0u64;
-  if let Ok(rd) = std::fs::read_dir(&corpus_dir) {
-    let mut files: Vec<_> = rd.filter_map(|e| e.ok()).map(|e| e.path()).collect();
-    files.sort();
-    for f in files {
-      if f.extension().and_then(|s| s.to_str()) != Some("json") {
-        continue;
-      }
-      let text = std::fs::read_to_string(&f).unwrap();
-      let json: serde_json::Value = match serde_json::from_str(&text) {
-        Ok(j) => j,
-        Err(e) => {
-          harness_errors.push(format!("corpus file {f:?} unreadable: {e}"));
-          continue;
-        }
-      };
-      corpus_replayed += 1;
-      match replay_case(spec, tier, &json) {
-        Ok(vs) => {
+  {
+    let exe = std::env::current_exe().expect("current exe");
+    let out = work_dir.join("pre.json");
+    let cur = work_dir.join("pre.cur.json");
+    let status = std::process::Command::new(&exe)
+      .arg("pre")
+      .arg(spec.id)
+      .arg(tier.as_str())
+      .arg(seed.to_string())
+      .arg(&out)
+      .arg(&cur)
+      .stdin(std::process::Stdio::null())
+      .status()
+      .expect("spawn pre");
+    let rep: Option<PreReport> = std::fs::read_to_string(&out)
+      .ok()
+      .and_then(|t| serde_json::from_str(&t).ok());
+    match rep {
+      Some(pre) if status.success() => {
+        corpus_replayed = pre.corpus_replayed;
+        harness_errors.extend(pre.harness_errors);
+        for (json, vs) in pre.corpus {
           for v in vs {
             if known.contains_key(&v.sig) {
               *known_hits.entry(v.sig.clone()).or_insert(0) += 1;
@@ -548,42 +646,77 @@ where
             }
           }
         }
-        Err(e) => harness_errors.push(format!("corpus file {f:?}: {e}")),
+        if let Some(rep) = pre.extra {
+          merged.evaluations += rep.evaluations;
+          for h in rep.nontrivial_hashes {
+            nontrivial.insert(h);
+          }
+          for (k, v) in rep.labels {
+            *merged.labels.entry(k).or_insert(0) += v;
+          }
+          for s in rep.samples.into_iter().take(3) {
+            merged.samples.push(s);
+          }
+          for (v, case) in rep.violations {
+            if known.contains_key(&v.sig) {
+              *known_hits.entry(v.sig.clone()).or_insert(0) += 1;
+            } else if !violations.iter().any(|x| x.sig == v.sig) {
+              violations.push(FoundViolation {
+                sig: v.sig,
+                msg: v.msg,
+                case,
+                panic: false,
+              });
+            }
+          }
+          exhaustive = rep.exhaustive;
+          notes.extend(rep.notes);
+        }
+      }
+      _ => {
+        let item: Option<serde_json::Value> = std::fs::read_to_string(&cur)
+          .ok()
+          .and_then(|t| serde_json::from_str(&t).ok());
+        let kind = if status.code() == Some(3) { "hang" } else { "crash" };
+        match item {
+          Some(item) if spec.crash_is_violation => {
+            // confirm in a fresh process before reporting
+            let p = replay_dir.join(format!("{kind}-{:016x}.json", hash_json(&item)));
+            std::fs::write(&p, serde_json::to_string_pretty(&item).unwrap()).unwrap();
+            let st = std::process::Command::new(&exe)
+              .arg("replay")
+              .arg(spec.id)
+              .arg(&p)
+              .env("VP_REPLAY_TIMEOUT_S", "150")
+              .stdout(std::process::Stdio::null())
+              .status();
+            let confirmed = match st {
+              Ok(s) => !(s.code() == Some(0) || s.code() == Some(1)),
+              Err(_) => false,
+            };
+            if confirmed {
+              violations.push(FoundViolation {
+                sig: format!("{}/{kind}/corpus-layer", spec.id),
+                msg: format!("confirmed {kind} in a fresh process while analysing {item}"),
+                case: item,
+                panic: true,
+              });
+            } else {
+              harness_errors.push(format!(
+                "{kind} in the corpus / extra layer on {item} did not reproduce; replay={}",
+                p.display()
+              ));
+            }
+          }
+          Some(item) => harness_errors.push(format!(
+            "{kind} in the corpus / extra layer ({status}) on {item}"
+          )),
+          None => harness_errors.push(format!(
+            "the corpus / extra layer process died ({status}) outside any item"
+          )),
+        }
       }
     }
-  }
-
-  // 2. deterministic extra layer
-  let mut merged = WorkerReport::default();
-  let mut nontrivial: BTreeSet<u64> = BTreeSet::new();
-  let mut exhaustive: Option<bool> = None;
-  let mut notes: Vec<String> = Vec::new();
-  if let Some(extra) = spec.extra {
-    let rep = extra(tier, seed);
-    merged.evaluations += rep.evaluations;
-    for h in rep.nontrivial_hashes {
-      nontrivial.insert(h);
-    }
-    for (k, v) in rep.labels {
-      *merged.labels.entry(k).or_insert(0) += v;
-    }
-    for s in rep.samples.into_iter().take(3) {
-      merged.samples.push(s);
-    }
-    for (v, case) in rep.violations {
-      if known.contains_key(&v.sig) {
-        *known_hits.entry(v.sig.clone()).or_insert(0) += 1;
-      } else if !violations.iter().any(|x| x.sig == v.sig) {
-        violations.push(FoundViolation {
-          sig: v.sig,
-          msg: v.msg,
-          case,
-          panic: false,
-        });
-      }
-    }
-    exhaustive = rep.exhaustive;
-    notes.extend(rep.notes);
   }
 
   // 3. workers
@@ -675,6 +808,11 @@ where
   // confirm crashes / hangs in a fresh process
   for (kind, cases) in [("crash", &crashed), ("hang", &hangs)] {
     for c in cases.iter() {
+      // one confirmed crash / hang is enough to report; the others are
+      // almost always the same root cause
+      if violations.iter().any(|v| v.sig == format!("{}/{kind}", spec.id)) {
+        break;
+      }
       let p = replay_dir.join(format!("{kind}-{:016x}.json", hash_json(c)));
       std::fs::write(&p, serde_json::to_string_pretty(c).unwrap()).unwrap();
       let st = std::process::Command::new(&exe)
@@ -832,7 +970,16 @@ where
       std::process::exit(4);
     });
   }
-  match replay_case(spec, tier, &json) {
+  let result = match (json.get("corpus_file").and_then(|f| f.as_str()), spec.extra) {
+    (Some(file), Some(extra)) => {
+      // a finding of the corpus layer: analyse that corpus file only
+      std::env::set_var("VP_ONLY_CORPUS_FILE", file);
+      let rep = extra(tier, env_seed());
+      Ok(rep.violations.into_iter().map(|(v, _)| v).collect::<Vec<_>>())
+    }
+    _ => replay_case(spec, tier, &json),
+  };
+  match result {
     Ok(vs) => {
       let mut exit = 0;
       for v in vs {
@@ -910,6 +1057,11 @@ where
         Path::new(&args[7]),
       );
       0
+    }
+    "pre" => {
+      let tier = tier_of(&args[2]);
+      let seed: u64 = args[3].parse().unwrap();
+      pre_main(&spec, tier, seed, Path::new(&args[4]), Path::new(&args[5]))
     }
     "replay" => {
       let tier = std::env::var("VERIF_TIER")
